@@ -1,7 +1,9 @@
 // Package dump renders any Go value, including its unexported fields, into a canonical string
 // using reflection only (no unsafe, no field names hard-coded). Pointers are canonicalised by
-// first-visit order and maps are sorted, so two dumps are equal iff the two object graphs are
-// isomorphic. It is used for state-deduplication keys and diagnostics, never as an oracle on the
+// first-visit order (maps have an identity too) and maps are sorted, so two dumps are equal iff the
+// two object graphs are isomorphic, up to two approximations that only make keys coarser in ways
+// no check relies on: pointers inside map values are numbered privately per value, and overlapping
+// slices are not recognised as sharing memory. It is used for state-deduplication keys and diagnostics, never as an oracle on the
 // meaning of a field.
 package dump
 
@@ -146,6 +148,12 @@ func (d *dumper) value(v reflect.Value) {
 			d.b.WriteString("nilmap")
 			return
 		}
+		// two references to one map are not the same state as references to two equal maps
+		mid, seenMap := d.ref(v.Pointer())
+		if seenMap {
+			d.b.WriteString("map&" + strconv.Itoa(mid))
+			return
+		}
 		type kv struct{ k, v string }
 		var items []kv
 		iter := v.MapRange()
@@ -160,7 +168,7 @@ func (d *dumper) value(v reflect.Value) {
 			items = append(items, kv{kd.b.String(), vd.b.String()})
 		}
 		sort.Slice(items, func(i, j int) bool { return items[i].k < items[j].k })
-		d.b.WriteString("map{")
+		d.b.WriteString("map&" + strconv.Itoa(mid) + "{")
 		for i, it := range items {
 			if i > 0 {
 				d.b.WriteString(" ")
